@@ -2,12 +2,14 @@
 against the real biom.err module, build the observation tree, and have Lean evaluate `holds`
 on it and compare it with the model's tree."""
 import io
+import os
 import itertools
 import warnings
 
 from . import core
 
 REACTIONS = ["raise", "ignore", "call", "print", "warn"]
+TMP = "/tmp/c20"
 
 
 class Propagate(Exception):
@@ -110,6 +112,7 @@ class Env:
         self.default_calls = {k: E.geterrcall(k) for k in self.kinds}
         self.log = []
         self.saved = {}
+        self.cms = {}
         self.cbs = {}
         for i in (1, 2, 3):
             self.cbs[i] = self._mk(i)
@@ -126,6 +129,7 @@ class Env:
             self.E.seterrcall(k, f)
         self.log.clear()
         self.saved.clear()
+        self.cms.clear()
 
     def snap(self):
         return [[k, v] for k, v in sorted(self.E.geterr().items())]
@@ -215,20 +219,33 @@ class Env:
             before = self.snap()
             entered = None
             exc = exit_exc(E, prog.get("via", "Exception"))
+            holder = {}
+
+            def block():
+                inside = self.snap()
+                holder["entered"] = {"inside": inside, "body": None}
+                ob = self.run(prog["body"])
+                holder["entered"]["body"] = ob
+                if out_of(ob) != "normal":
+                    raise exc
             try:
-                with E.errstate(**dict(prog["kw"])):
-                    inside = self.snap()
-                    entered = {"inside": inside, "body": None}
-                    ob = self.run(prog["body"])
-                    entered["body"] = ob
-                    if out_of(ob) != "normal":
-                        raise exc
+                if prog.get("form") == "decorator":
+                    # the scoped override used as a decorator; ONE context-manager object per keyword set and program,
+                    # so that nested nodes with the same keywords re-enter the same object (as a recursive function does)
+                    key = repr(prog["kw"])
+                    if key not in self.cms:
+                        self.cms[key] = E.errstate(**dict(prog["kw"]))
+                    self.cms[key](block)()
+                else:
+                    with E.errstate(**dict(prog["kw"])):
+                        block()
             except KeyError:
-                if entered is not None:
+                if holder.get("entered") is not None:
                     raise
             except BaseException as e:
                 if e is not exc:
                     raise
+            entered = holder.get("entered")
             return {"op": "errstate", "before": before, "entered": entered, "after": self.snap()}
         raise ValueError(op)
 
@@ -283,7 +300,13 @@ def gen_prog(rng, kinds, depth):
         return {"op": "raise"}
     if c < 0.7:
         return {"op": "seq", "a": gen_prog(rng, kinds, depth - 1), "b": gen_prog(rng, kinds, depth - 1)}
-    return {"op": "errstate", "kw": gen_kw(rng, kinds), "body": gen_prog(rng, kinds, depth - 1), "via": rng.choice(EXITS)}
+    node = {"op": "errstate", "kw": gen_kw(rng, kinds), "body": gen_prog(rng, kinds, depth - 1), "via": rng.choice(EXITS)}
+    if rng.random() < 0.3:
+        node["form"] = "decorator"
+        if rng.random() < 0.5:
+            # the same decorated scope entered again from inside itself
+            node["body"] = {"op": "errstate", "kw": node["kw"], "body": node["body"], "via": rng.choice(EXITS), "form": "decorator"}
+    return node
 
 
 def prog_size(p):
@@ -376,6 +399,16 @@ def run(ctx):
                                       "a": {"op": "errstate", "kw": [["sampdup", "print"]], "via": "Exception",
                                             "body": {"op": "errstate", "kw": kw, "body": body, "via": via}},
                                       "b": {"op": "check", "trig": ["sampdup"]}}, ("exceptional-exit", "nested", "via:" + via))
+    # the override used as a decorator, entered once, twice and three times from inside itself, left normally or not
+    for kw in ([["empty", "raise"]], [["all", "ignore"]], [["obsdup", "warn"], ["empty", "print"]]):
+        for depth in (1, 2, 3):
+            for body in ({"op": "check", "trig": ["empty"]}, {"op": "raise"}, {"op": "check", "trig": ["obsdup"]}):
+                node = body
+                for _ in range(depth):
+                    node = {"op": "errstate", "kw": kw, "body": node, "via": "Exception", "form": "decorator"}
+                check_prog(ctx, env, {"op": "seq", "a": node,
+                                      "b": {"op": "seq", "a": {"op": "check", "trig": ["empty"]}, "b": {"op": "check", "trig": ["obsdup"]}}},
+                           ("decorator", "depth=%d" % depth))
     # the save/restore idiom of seterrcall: what an earlier call returned is put back (cb 0), then the kind is triggered
     for k in kinds:
         for first in (1, 0):
@@ -549,7 +582,49 @@ def run(ctx):
                 mk = lambda: Table(np.arange(6.0).reshape(3, 2) + 1, ["a", "b", "c"], ["x", "y"])
             yield ("collapse-labels-of-equal-text-" + axis, facts,
                    (lambda mk=mk, lab=lab, axis=axis: mk().collapse(lambda i, m: lab[i], axis=axis, norm=False)))
-    for label, facts, call in list(site_cases()) + list(dup_label_cases()):
+    def more_site_cases():
+        """(label, facts, prepare): prepare() runs under errstate(all='ignore') and returns the call to observe"""
+        allzero = lambda: Table(np.zeros((2, 3)), ["a", "b"], ["x", "y", "z"])
+        for axis in ("whole", "sample", "observation"):
+            for inplace in (True, False):
+                f = {"nrows": 0 if axis != "sample" else 2, "ncols": 0 if axis != "observation" else 3,
+                     "obs_ids": [] if axis != "sample" else ["a", "b"], "samp_ids": [] if axis != "observation" else ["x", "y", "z"],
+                     "omd_len": None, "smd_len": None}
+                yield ("remove_empty-%s-%s" % (axis, inplace), f,
+                       (lambda axis=axis, inplace=inplace: (lambda t=allzero(): t.remove_empty(axis=axis, inplace=inplace))))
+        for axis in ("sample", "observation"):
+            for inplace in (True, False):
+                f = {"nrows": 2 if axis == "sample" else 0, "ncols": 0 if axis == "sample" else 3,
+                     "obs_ids": ["a", "b"] if axis == "sample" else [], "samp_ids": [] if axis == "sample" else ["x", "y", "z"],
+                     "omd_len": None, "smd_len": None}
+                yield ("filter-nothing-passes-%s-%s" % (axis, inplace), f,
+                       (lambda axis=axis, inplace=inplace: (lambda t=allzero(): t.filter(lambda v, i, m: False, axis=axis, inplace=inplace))))
+        # a file whose content is an offending table, read through every loader
+        import h5py
+        import biom
+        from biom.parse import parse_biom_table
+        os.makedirs(TMP, exist_ok=True)
+        for kind, mk in (("sampdup", lambda: Table(np.ones((2, 2)), ["a", "b"], ["x", "x"])),
+                         ("obsdup", lambda: Table(np.ones((2, 2)), ["a", "a"], ["x", "y"]))):
+            f = {"nrows": 2, "ncols": 2, "obs_ids": ["a", "a"] if kind == "obsdup" else ["a", "b"],
+                 "samp_ids": ["x", "x"] if kind == "sampdup" else ["x", "y"], "omd_len": None, "smd_len": None}
+            for loader in ("load_table", "parse_biom_table", "from_hdf5"):
+                def prepare(mk=mk, loader=loader, kind=kind):
+                    path = os.path.join(TMP, "site_%d_%s.biom" % (os.getpid(), kind))
+                    with h5py.File(path, "w") as h:
+                        mk().to_hdf5(h, "c20")
+
+                    def call():
+                        if loader == "load_table":
+                            return biom.load_table(path)
+                        with h5py.File(path, "r") as h:
+                            return parse_biom_table(h) if loader == "parse_biom_table" else Table.from_hdf5(h)
+                    return call
+                yield ("hdf5-%s-%s" % (loader, kind), f, prepare)
+
+    all_sites = [(a, b, c, None) for a, b, c in list(site_cases()) + list(dup_label_cases())] + \
+        [(a, b, None, c) for a, b, c in more_site_cases()]
+    for label, facts, call, prepare in all_sites:
         trig = ctx.driver.ask({"facts": facts})["firing"]
         for r in REACTIONS:
             env.reset()
@@ -561,6 +636,9 @@ def run(ctx):
                 with env.E.errstate(all="ignore"):
                     empty_t = Table(np.zeros((0, 0)), [], [])
                 call = (lambda et=empty_t: et.collapse(lambda i, m: "g", axis="sample"))
+            if prepare is not None:
+                with env.E.errstate(all="ignore"):
+                    call = prepare()
             oa = env.run(prog["a"])
             try:
                 ob = env.observe_check(None, trig, call)
@@ -582,6 +660,12 @@ def run(ctx):
         r = check_prog(ctx, env, prog, ("random",))
         ctx.count("size=%d" % min(prog_size(prog), 12))
     env.reset()
+    import glob
+    for f in glob.glob(os.path.join(TMP, "site_%d_*.biom" % os.getpid())):
+        try:
+            os.remove(f)
+        except OSError:
+            pass
 
 
 def replay(ctx, rec):
